@@ -137,8 +137,14 @@ def main(argv=None):
             print(f'INCONCLUSIVE property={pid} replay failed: {res}')
             return 2
         if ok:
+            known = {k['mechanism']: k for k in known_findings() if k['property'] == pid and k['status'] == 'known'}
             for v in res['violations'][:3]:
                 print(f'  reproduced: {v.get("clause")} :: {v.get("detail")}')
+            mechs = {mech_key(v) for v in res['violations']}
+            if mechs <= set(known):
+                for m in sorted(mechs):
+                    print(f'KNOWN-FINDING: property={pid} {m}: {known[m]["what"]} (witness {args.replay} reproduces)')
+                return 0
             print(f'VIOLATION property={pid} replay={args.replay}')
             return 1
         print(f'replay of {args.replay} did not violate {pid}')
